@@ -28,7 +28,7 @@ func verifRoot(maxComp int) string {
 func verifRepoComponent(maxLen int) string {
 	k := verif.Choice("repo_comp_kind", 1+maxLen)
 	if k == 0 {
-		return verifKeywords[verif.Choice("repo_keyword", verif.Bound("repo_keywords", 4, 6))]
+		return verifKeywords[verif.Choice("repo_keyword", verif.Bound("repo_keywords", 4, 5))]
 	}
 	b := verif.Bytes("repo_comp", k)
 	for j := range b {
@@ -79,7 +79,7 @@ var verifConcreteRoots = []string{"/", "/r.", "/r./", "/ab", "/ab/", "/a-/b_", "
 // regexp is concrete. The symbolic root grammar is covered by the …Roots
 // harnesses.
 func verifNameRoot() string {
-	return verifConcreteRoots[verif.Choice("root", verif.Bound("concrete_roots", 5, len(verifConcreteRoots)))]
+	return verifConcreteRoots[verif.Choice("root", verif.Bound("concrete_roots", 5, 6))]
 }
 
 func verifDockerTagCheck(root, repo, tag string) {
